@@ -9,11 +9,29 @@
 use std::cell::Cell;
 use std::sync::{Arc, Condvar, Mutex};
 
+/// "is the mutex this thread is about to lock free?"  (address of the mutex + a
+/// monomorphic try_lock).  Only evaluated by the explorer while no harness thread runs,
+/// and only while the owning thread is parked inside `before_lock` (which borrows the mutex).
+#[derive(Clone, Copy, Debug, PartialEq)]
+struct Probe(usize, fn(usize) -> bool);
+
+fn probe_fn<T>(addr: usize) -> bool {
+    let m = unsafe { &*(addr as *const Mutex<T>) };
+    match m.try_lock() {
+        Ok(g) => {
+            drop(g);
+            true
+        }
+        Err(std::sync::TryLockError::Poisoned(_)) => true,
+        Err(std::sync::TryLockError::WouldBlock) => false,
+    }
+}
+
 #[derive(Clone, Debug, PartialEq)]
 enum Status {
     Running,
-    /// parked at a hook point; `blocked_at` = step counter when a lock probe failed
-    Parked { label: &'static str, blocked_at: Option<u64> },
+    /// parked at a hook point; `probe` = the lock this thread will take next (enabled only when free)
+    Parked { label: &'static str, probe: Option<Probe> },
     Finished,
 }
 
@@ -37,10 +55,9 @@ fn with_me<R>(f: impl FnOnce(usize, &Ctrl) -> R) -> Option<R> {
     ME.with(|m| m.get()).map(|(id, c)| f(id, unsafe { &*c }))
 }
 
-fn park(id: usize, c: &Ctrl, label: &'static str, blocked: bool) {
+fn park(id: usize, c: &Ctrl, label: &'static str, probe: Option<Probe>) {
     let mut st = c.m.lock().unwrap();
-    let at = st.steps;
-    st.status[id] = Status::Parked { label, blocked_at: if blocked { Some(at) } else { None } };
+    st.status[id] = Status::Parked { label, probe };
     st.baton = None;
     c.cv.notify_all();
     while st.baton != Some(id) {
@@ -55,7 +72,7 @@ fn park(id: usize, c: &Ctrl, label: &'static str, blocked: bool) {
 
 /// A scheduling point.  No-op outside an exploration.
 pub fn point(label: &'static str) {
-    with_me(|id, c| park(id, c, label, false));
+    with_me(|id, c| park(id, c, label, None));
 }
 
 /// Scheduling point before `m.lock()`: makes contention visible to the
@@ -63,17 +80,9 @@ pub fn point(label: &'static str) {
 /// `lock()` cannot block (nobody else runs in between).
 pub fn before_lock<T>(m: &Mutex<T>, label: &'static str) {
     with_me(|id, c| {
-        park(id, c, label, false);
-        loop {
-            match m.try_lock() {
-                Ok(g) => {
-                    drop(g);
-                    return;
-                }
-                Err(std::sync::TryLockError::Poisoned(_)) => return,
-                Err(std::sync::TryLockError::WouldBlock) => park(id, c, label, true),
-            }
-        }
+        // the explorer hands the baton to this thread only when the mutex is free, and
+        // nobody else runs until the next hook point, so the following lock() cannot block
+        park(id, c, label, Some(Probe(m as *const Mutex<T> as usize, probe_fn::<T>)));
     });
 }
 
@@ -100,7 +109,7 @@ pub fn run_once(bodies: Vec<Box<dyn FnOnce() + Send>>, prefix: &[usize]) -> Resu
                 .spawn(move || {
                     ME.with(|m| m.set(Some((id, Arc::as_ptr(&c)))));
                     let r = std::panic::catch_unwind(std::panic::AssertUnwindSafe(|| {
-                        park(id, &c, "start", false);
+                        park(id, &c, "start", None);
                         body();
                     }));
                     ME.with(|m| m.set(None));
@@ -137,11 +146,10 @@ pub fn run_once(bodies: Vec<Box<dyn FnOnce() + Send>>, prefix: &[usize]) -> Resu
         if st.status.iter().all(|s| *s == Status::Finished) {
             break;
         }
-        let steps = st.steps;
         let mut enabled: Vec<usize> = Vec::new();
         for (id, s) in st.status.iter().enumerate() {
-            if let Status::Parked { blocked_at, .. } = s {
-                if blocked_at.is_none_or(|b| b < steps) {
+            if let Status::Parked { probe, .. } = s {
+                if probe.is_none_or(|Probe(a, f)| f(a)) {
                     enabled.push(id);
                 }
             }
@@ -253,4 +261,107 @@ pub fn explore(
         }
     }
     Ok(stats)
+}
+
+/// Preemptions of the schedule `points[..i]` followed by alternative `alt` at point `i`.
+pub fn preemptions_with(points: &[(Vec<usize>, usize, Vec<&'static str>)], i: usize, alt: usize) -> usize {
+    preemptions(points, i, Some(alt))
+}
+
+pub struct LevelResult<R> {
+    /// (complete choice vector, result of `run`) of every execution of this level, sorted by choices
+    pub runs: Vec<(Vec<usize>, R)>,
+    /// prefixes whose last choice is the (bound+1)-th preemption: the work list of the next level
+    pub deferred: Vec<Vec<usize>>,
+    /// prefixes left unexplored because the deadline / execution cap was hit
+    pub unexplored: usize,
+    pub error: Option<String>,
+}
+
+/// One level of iterative preemption bounding, run by `workers` explorer threads in
+/// parallel (every explorer owns its executions: the baton state is per execution and
+/// the hooks find it through a thread-local).  Explores every schedule that extends a
+/// prefix of `work` with at most `bound` preemptions in total; alternatives that would
+/// be preemption number bound+1 are returned as `deferred` instead of being re-derived
+/// by a later level, so no schedule is executed twice across levels.
+/// The set of executions of a completed level does not depend on the worker schedule.
+pub fn explore_level<R: Send>(
+    run: &(dyn Fn(&[usize]) -> Result<(Execution, R), String> + Sync),
+    work: Vec<Vec<usize>>,
+    bound: usize,
+    workers: usize,
+    deadline: std::time::Instant,
+    max_executions: u64,
+) -> LevelResult<R> {
+    struct Shared<R> {
+        stack: Vec<Vec<usize>>,
+        inflight: usize,
+        runs: Vec<(Vec<usize>, R)>,
+        deferred: Vec<Vec<usize>>,
+        error: Option<String>,
+        stop: bool,
+        executions: u64,
+    }
+    let sh = Mutex::new(Shared { stack: work, inflight: 0, runs: Vec::new(), deferred: Vec::new(), error: None, stop: false, executions: 0 });
+    let cv = Condvar::new();
+    std::thread::scope(|s| {
+        for _ in 0..workers.max(1) {
+            s.spawn(|| loop {
+                let prefix = {
+                    let mut g = sh.lock().unwrap();
+                    loop {
+                        if g.stop {
+                            return;
+                        }
+                        if std::time::Instant::now() >= deadline || g.executions >= max_executions {
+                            g.stop = true;
+                            cv.notify_all();
+                            return;
+                        }
+                        if let Some(p) = g.stack.pop() {
+                            g.inflight += 1;
+                            g.executions += 1;
+                            break p;
+                        }
+                        if g.inflight == 0 {
+                            cv.notify_all();
+                            return;
+                        }
+                        g = cv.wait(g).unwrap();
+                    }
+                };
+                let r = run(&prefix);
+                let mut g = sh.lock().unwrap();
+                g.inflight -= 1;
+                match r {
+                    Err(e) => {
+                        g.error.get_or_insert(e);
+                        g.stop = true;
+                    }
+                    Ok((x, res)) => {
+                        for i in prefix.len()..x.points.len() {
+                            let (en, _, _) = &x.points[i];
+                            for alt in 1..en.len() {
+                                let n = preemptions(&x.points, i, Some(alt));
+                                let mut p: Vec<usize> = x.points[..i].iter().map(|(_, c, _)| *c).collect();
+                                p.push(alt);
+                                if n <= bound {
+                                    g.stack.push(p);
+                                } else if n == bound + 1 {
+                                    g.deferred.push(p);
+                                }
+                            }
+                        }
+                        let choices: Vec<usize> = x.points.iter().map(|(_, c, _)| *c).collect();
+                        g.runs.push((choices, res));
+                    }
+                }
+                cv.notify_all();
+            });
+        }
+    });
+    let mut g = sh.into_inner().unwrap();
+    g.runs.sort_by(|a, b| a.0.cmp(&b.0));
+    g.deferred.sort();
+    LevelResult { unexplored: g.stack.len() + g.inflight, runs: g.runs, deferred: g.deferred, error: g.error }
 }
